@@ -639,7 +639,11 @@ fn gen_history(r: &mut Rng, pool: &[Vec<u8>], paths: &[&str]) -> (Tree, Tree, Ve
                 // edits it again while the other side puts the original loser back - the new loser needs a name of its own
                 // (the conflict name of a conflict name), whichever of the two loses
                 let q2 = format!("{}.conflict-vphost-{}", p, &hex(&h32(&lo))[..12]);
-                let e1: Vec<u8> = lo.iter().rev().map(|x| x ^ 0x2a).collect();
+                // (half of the time the second edit is chosen so that its digest is GREATER than the original loser's: the
+                // original loser loses again, and the name it has to go to is derived from a path that already carries its hash)
+                let want_greater = r.chance(1, 2);
+                let e1: Vec<u8> = (0x2au8..0x6a).map(|k| lo.iter().rev().map(|x| x ^ k).collect::<Vec<u8>>())
+                    .find(|c| (h32(c) > h32(&lo)) == want_greater).unwrap_or_else(|| lo.iter().rev().map(|x| x ^ 0x2a).collect());
                 let side = r.chance(1, 2);
                 if !matches!(ops.last(), Some(Op::Run)) { ops.push(Op::Run); }
                 ops.extend(vec![Op::Write(side, q2.clone(), e1, false), Op::Write(!side, q2, lo.clone(), false), Op::Run, Op::Run]);
